@@ -1,10 +1,10 @@
 SPECIFICATION Spec
 CONSTRAINT Bound
 VIEW View
-CONSTANT Configs <- ConfigsReach
+CONSTANT Configs <- ConfigsReach2
 CONSTANT Ops <- OpsRd
 CONSTANT MSizes <- SizesReach
 CONSTANT Depth <- DepthRd
-CONSTANT Advs <- AdvsRd
+CONSTANT Advs <- AdvsReach
 INVARIANT NoOrphanClobber
 CHECK_DEADLOCK FALSE
